@@ -5,25 +5,6 @@ import NurbsVerif.Proofs.KV
 
 namespace NV
 
-theorem cnt_insSorted (a : Rat) (l : List Rat) (x : Rat) : cnt (insSorted a l) x = cnt (a :: l) x := by
-  induction l with
-  | nil => rfl
-  | cons b l ih =>
-    simp only [insSorted]
-    split
-    · rfl
-    · simp only [cnt, List.filter_cons] at *
-      by_cases hb : (b == x) = true <;> by_cases ha : (a == x) = true <;> simp [hb, ha] at * <;> omega
-
-/-- sorting does not change any multiplicity -/
-theorem cnt_isort (l : List Rat) (x : Rat) : cnt (isort l) x = cnt l x := by
-  induction l with
-  | nil => rfl
-  | cons a l ih =>
-    simp only [isort, cnt_insSorted]
-    simp only [cnt, List.filter_cons] at *
-    by_cases ha : (a == x) = true <;> simp [ha, ih]
-
 theorem cnt_replicate (n : Nat) (a x : Rat) : cnt (List.replicate n a) x = if a = x then n else 0 := by
   induction n with
   | zero => simp [cnt]
